@@ -52,6 +52,7 @@ func c07Service() *core.Service {
 	s.AddFunction(func(b *big.Int, f float64) {}, "fbig")
 	s.AddFunction(func(s string) string { return s }, "привет")
 	s.AddFunction(func(s string) string { return s }, "MixedCase")
+	s.AddFunction(func(a float64, b float32) float64 { return a }, "ff")
 	return s
 }
 
@@ -291,6 +292,9 @@ func c07JShapes() []c07JShape {
 	add("j-several-results-fewer", "f1", []interface{}{1}, h0, true, []interface{}{1}, intT, strT)
 	add("j-result-map", "f1", []interface{}{1}, h1, true, map[string]interface{}{"a": "x", "b": "x"}, reflect.TypeOf(map[string]interface{}(nil)))
 	add("j-result-struct-list", "f1", []interface{}{1}, h0, false, []gen.Plain{{A: 1, B: "x"}, {A: 2, B: "x"}}, reflect.TypeOf([]gen.Plain(nil)))
+	add("j-floats", "ff", []interface{}{3.141592653589793, float32(1.5)}, h0, true, 2.718281828459045, reflect.TypeOf(0.0))
+	add("j-floats-small-large", "ff", []interface{}{1.0000000000000002e-7, float32(0.1)}, map[string]interface{}{"f": 0.1234567890123}, true, 1.7976931348623157e308, reflect.TypeOf(0.0))
+	add("j-float-in-list", "fany", []interface{}{[]interface{}{0.1, 1e21, 123456.789012345}}, h0, true, []interface{}{0.30000000000000004}, reflect.TypeOf([]float64(nil)))
 	add("j-error", "f1", []interface{}{1}, h0, true, errors.New("boom"), intT)
 	add("j-error-with-headers", "f1", []interface{}{1}, h1, true, errors.New("shared"), intT)
 	add("j-panic-error", "f1", []interface{}{1}, h0, true, core.NewPanicError("kaboom"), intT)
